@@ -58,8 +58,8 @@ def corpus_case(rng, idx):
 
 def pre_productmd_case(rng):
     """a pre-productmd .treeinfo as third parties wrote them (not derived from a file of ours)"""
-    arch = pick(rng, ["x86_64", "ppc64", "s390x", "i386", "src"])
-    g = {"family": pick(rng, ["Spacewalk", "My Product", "Tools", "\u00dcn\u00efcode Linux", "OS"]), "version": pick(rng, ["7.0", "21", "8", "1.2.3"]),
+    arch = pick(rng, ["x86_64", "ppc64", "s390x", "i386", "src", "src"])
+    g = {"family": pick(rng, ["Spacewalk", "My Product", "Tools", "\u00dcn\u00efcode Linux", "OS", "Fedora", "Fedora"]), "version": pick(rng, ["7.0", "21", "8", "1.2.3"]),
          "arch": arch, "variant": pick(rng, ["Server", "Client", "AS", "Tools"]),
          "timestamp": pick(rng, ["1417653911.68", "1417653911", "1.5", "12345"])}
     g["name"] = "%s %s" % (g["family"], g["version"])
@@ -91,7 +91,7 @@ def pre_productmd_case(rng):
 def generate(rng, tier, idx):
     if idx % 8 == 7:
         return corpus_case(rng, idx)
-    if idx % 16 == 6:
+    if idx % 8 == 6:
         return pre_productmd_case(rng)
     which = idx % 8
     if which in (0, 1):
